@@ -121,6 +121,101 @@ func sensitivityAudit(c *report.Ctx, id, repo, verifDir string) {
 	c.Note("sensitivity audit: %d mutants re-checked through overlays: %d killed, %d survived, %d skipped/broken (a survivor is a weakness of the checker, reported here, never an alarm about /repo)", len(results), killed, survived, skipped)
 }
 
+// specificityAudit is the other half of the thorough tier: the behaviour-preserving refactorings committed under
+// refactorings/ that were written for THIS property (refactorings/<id>-*, by independent authors, plus the correct
+// counterparts of seeded changes BV-*) are applied through overlays and the check must stay silent on each. A report
+// on one of them is a false alarm of the checker; like a surviving mutant it is listed in the evidence and on stdout
+// (REFACTORING … alarm) and never turned into an alarm about /repo. Entries of refactorings/EXPECTED.json (a recorded
+// defect that a refactoring moves to a new site) are expected reports.
+func specificityAudit(c *report.Ctx, id, repo, verifDir string) {
+	expected := map[string][]string{}
+	if b, err := os.ReadFile(filepath.Join(verifDir, "refactorings", "EXPECTED.json")); err == nil {
+		json.Unmarshal(b, &expected)
+	}
+	var names []string
+	paths := map[string]string{}
+	ms, _ := filepath.Glob(filepath.Join(verifDir, "refactorings", "*", "patch.diff"))
+	for _, m := range ms {
+		n := filepath.Base(filepath.Dir(m))
+		if strings.HasPrefix(n, id+"-") || strings.HasPrefix(n, "BV-") {
+			names = append(names, n)
+			paths[n] = m
+		}
+	}
+	sort.Strings(names)
+	exe, _ := os.Executable()
+	tmp, _ := os.MkdirTemp("", "mwspec")
+	defer os.RemoveAll(tmp)
+	verdicts := make([]string, len(names))
+	sem := make(chan struct{}, 6)
+	var wg sync.WaitGroup
+	for i, n := range names {
+		wg.Add(1)
+		go func(i int, n string) {
+			defer wg.Done()
+			sem <- struct{}{}
+			defer func() { <-sem }()
+			ev := filepath.Join(tmp, n)
+			os.MkdirAll(ev, 0o755)
+			cmd := exec.Command(exe, "-p", id, "-tier", "quick", "-repo", repo, "-patch", paths[n], "-evidence-dir", ev)
+			cmd.Env = append(os.Environ(), "VERIF_DIR="+verifDir)
+			out, err := cmd.Output()
+			rc := 0
+			if ee, ok := err.(*exec.ExitError); ok {
+				rc = ee.ExitCode()
+			} else if err != nil {
+				rc = -1
+			}
+			switch rc {
+			case 0:
+				verdicts[i] = "silent"
+			case 1:
+				unexpected := false
+				for _, l := range strings.Split(string(out), "\n") {
+					if !strings.HasPrefix(l, "finding: ") {
+						continue
+					}
+					f := strings.SplitN(strings.TrimPrefix(l, "finding: "), " pos=", 2)[0]
+					ok := false
+					for _, e := range expected[n] {
+						if e == f {
+							ok = true
+						}
+					}
+					if !ok {
+						unexpected = true
+					}
+				}
+				if unexpected {
+					verdicts[i] = "alarm"
+				} else {
+					verdicts[i] = "expected report"
+				}
+			case 3:
+				verdicts[i] = "skipped (patch no longer applies)"
+			default:
+				verdicts[i] = "broken (patched tree does not load)"
+			}
+		}(i, n)
+	}
+	wg.Wait()
+	silent, alarms := 0, 0
+	var list []map[string]interface{}
+	for i, n := range names {
+		if verdicts[i] == "alarm" {
+			alarms++
+		} else if verdicts[i] == "silent" || verdicts[i] == "expected report" {
+			silent++
+		}
+		list = append(list, map[string]interface{}{"refactoring": n, "verdict": verdicts[i]})
+		fmt.Printf("REFACTORING %-14s %s\n", n, verdicts[i])
+	}
+	c.Extra["refactorings"] = list
+	c.Extra["refactorings_silent"] = silent
+	c.Extra["refactorings_false_alarms"] = alarms
+	c.Note("specificity audit: %d behaviour-preserving refactorings re-checked through overlays: %d as expected, %d false alarms (a false alarm is a weakness of the checker, reported here, never an alarm about /repo)", len(names), silent, alarms)
+}
+
 func uniqStrings(s []string) []string {
 	sort.Strings(s)
 	var out []string
